@@ -1,6 +1,505 @@
-//! C21 — not implemented yet.
+//! C21 — Aggregates follow SQL NULL and empty-input rules on every path.
+//!
+//! Generator: table `r` with 1–2 group-key columns (BIGINT/INTEGER/VARCHAR/
+//! DATE, 0/20/50 % NULLs, tiny domains) and 2–3 value columns (BIGINT/INTEGER/
+//! DOUBLE/VARCHAR/DATE with 0/30/70/100 % NULLs — so all-NULL groups and
+//! all-NULL columns are common), 0–30 rows (sometimes a few hundred, so Parquet
+//! gets several row groups); optionally a second table `s` for a LEFT JOIN that
+//! produces NULL-extended rows. Statements:
+//!   grouped  `SELECT keys, aggs FROM r t1 [WHERE p] GROUP BY keys [HAVING h]`
+//!   global   `SELECT aggs FROM r t1 [WHERE p]`  (p often false for every row)
+//!   joined   `SELECT t1.key, aggs(t2.*) FROM r t1 LEFT JOIN s t2 ON .. GROUP BY t1.key`
+//! with 1–4 aggregates from COUNT(*), COUNT(x), SUM, AVG, MIN, MAX, COUNT(DISTINCT x).
+//! Every case runs through SIX engine configurations and each must agree with
+//! `refsql`: in-memory single batch; in-memory many batches; tiny memory limit
+//! (spill / partitioned aggregation); Parquet (random files, row groups,
+//! statistics → MorselAggregateExec generic or dense direct-address); Parquet
+//! with `verif_hooks::set_force_disjoint(true)`; Parquet with morsel
+//! execution disabled (generic hash aggregate over a Parquet scan).
 use super::Property;
+use crate::data::*;
+use crate::runner::*;
+use crate::sqlast::*;
+use crate::sqlgen::*;
+use proptest::prelude::*;
+use serde::{Deserialize, Serialize};
+
+#[path = "c25_util.rs"]
+mod util;
+use util::*;
+
+#[derive(Clone, Debug, Serialize, Deserialize)]
+pub struct AggCase {
+    pub sql_case: SqlCase,
+    pub cfgs: Vec<EngineCfg>,
+}
+
+const KEY_TYPES: [ColType; 5] = [ColType::Int, ColType::Int32, ColType::Str, ColType::Date, ColType::Int];
+const VAL_TYPES: [ColType; 6] = [ColType::Int, ColType::Int32, ColType::Double, ColType::Str, ColType::Date, ColType::Double];
+
+fn table_strategy(name: &'static str, nkeys: usize, with_big: bool) -> BoxedStrategy<Table> {
+    (
+        proptest::collection::vec((proptest::sample::select(KEY_TYPES.to_vec()), proptest::sample::select(vec![0u32, 20, 50])), nkeys),
+        proptest::collection::vec((proptest::sample::select(VAL_TYPES.to_vec()), proptest::sample::select(vec![0u32, 30, 70, 100])), 2..=3),
+        if with_big { prop_oneof![9 => Just(false), 1 => Just(true)].boxed() } else { Just(false).boxed() },
+    )
+        .prop_flat_map(move |(keys, vals, big)| {
+            let mut cols = vec![];
+            let mut strat: Vec<BoxedStrategy<Value>> = vec![];
+            for (i, (ty, pct)) in keys.iter().enumerate() {
+                cols.push(Column { name: format!("g{}", i + 1), ty: *ty });
+                strat.push(small_value(*ty, *pct));
+            }
+            for (i, (ty, pct)) in vals.iter().enumerate() {
+                cols.push(Column { name: format!("v{}", i + 1), ty: *ty });
+                strat.push(if *pct >= 100 { Just(Value::Null).boxed() } else { small_value(*ty, *pct) });
+            }
+            let n = if big { 150..=400usize } else { 0..=30usize };
+            proptest::collection::vec(strat, n).prop_map(move |rows| Table { name: name.to_string(), cols: cols.clone(), rows })
+        })
+        .boxed()
+}
+
+fn lit(t: &mut Tape, ty: ColType) -> Expr {
+    Expr::Lit(match ty {
+        ColType::Int | ColType::Int32 => Value::Int(t.pick(5) as i64),
+        ColType::Double => Value::Double((t.pick(17) as i64 - 8) as f64 * 0.25),
+        ColType::Str => Value::Str(["a", "", "ab", "b", "B", "a%", "é"][t.pick(7)].to_string()),
+        ColType::Date => Value::Date(10957 + t.pick(4) as i32 * 15),
+        ColType::Bool => Value::Bool(t.pick(2) == 1),
+    })
+}
+
+const CMP: [BinOp; 6] = [BinOp::Eq, BinOp::Lt, BinOp::Ne, BinOp::Le, BinOp::Gt, BinOp::Ge];
+
+/// an aggregate over a column of `tb` (alias `a`)
+fn agg(t: &mut Tape, tb: &Table, a: &str, feats: &mut Vec<String>) -> Expr {
+    let vals: Vec<&Column> = tb.cols.iter().collect();
+    let c = vals[t.pick(vals.len())];
+    let e = Expr::qcol(a, &c.name);
+    let numeric = c.ty.is_numeric();
+    let (x, f) = match t.pick(8) {
+        0 => (Expr::count_star(), "count_star"),
+        1 => (Expr::agg(AggF::Count, e), "count"),
+        2 if numeric => (Expr::agg(AggF::Sum, e), "sum"),
+        3 if numeric => (Expr::agg(AggF::Avg, e), "avg"),
+        2 | 4 => (Expr::agg(AggF::Min, e), "min"),
+        3 | 5 => (Expr::agg(AggF::Max, e), "max"),
+        6 => (Expr::Agg { f: AggF::Count, arg: Some(Box::new(e)), distinct: true }, "count_distinct"),
+        _ => (Expr::agg(if t.chance(50) { AggF::Min } else { AggF::Max }, e), "minmax"),
+    };
+    feats.push(format!("agg:{}", f));
+    if matches!(f, "min" | "max" | "minmax") {
+        feats.push(format!("minmax_type:{:?}", c.ty));
+    }
+    x
+}
+
+fn where_pred(t: &mut Tape, tb: &Table, a: &str, feats: &mut Vec<String>) -> Expr {
+    let c = &tb.cols[t.pick(tb.cols.len())];
+    let e = Expr::qcol(a, &c.name);
+    match t.pick(6) {
+        // false for every row: the aggregate sees an empty input
+        0 | 1 => {
+            feats.push("where_never".into());
+            if t.chance(50) {
+                Expr::bin(Expr::int(1), BinOp::Eq, Expr::int(0))
+            } else {
+                match c.ty {
+                    ColType::Int | ColType::Int32 => Expr::bin(e, BinOp::Gt, Expr::int(100)),
+                    ColType::Double => Expr::bin(e, BinOp::Gt, Expr::Lit(Value::Double(100.0))),
+                    ColType::Str => Expr::bin(e, BinOp::Eq, Expr::Lit(Value::Str("zzz".into()))),
+                    ColType::Date => Expr::bin(e, BinOp::Lt, Expr::Lit(Value::Date(0))),
+                    ColType::Bool => Expr::bin(Expr::int(1), BinOp::Eq, Expr::int(0)),
+                }
+            }
+        }
+        2 => Expr::IsNull { e: Box::new(e), neg: t.chance(50) },
+        _ => {
+            let ty = if c.ty == ColType::Int32 { ColType::Int } else { c.ty };
+            Expr::bin(e, CMP[t.pick(6)], lit(t, ty))
+        }
+    }
+}
+
+fn build(tables: Vec<Table>, tape: Vec<u16>, cuts: Vec<Vec<usize>>, layouts: Vec<ParquetLayout>) -> AggCase {
+    let mut t = Tape::new(tape);
+    let r = &tables[0];
+    let nkeys = r.cols.iter().filter(|c| c.name.starts_with('g')).count();
+    let mut feats: Vec<String> = vec![];
+    let shape = if tables.len() == 2 { 2 } else { t.pick(2) }; // 0 grouped, 1 global, 2 left-joined
+    let mut items: Vec<Item> = vec![];
+    let mut group: Vec<Expr> = vec![];
+    // MorselAggregateExec is planned only when the aggregate sits directly on a Scan
+    // (try_extract_parquet_source does not look through a SubqueryAlias): single-table
+    // statements therefore mostly go un-aliased (`FROM r`, columns `r.x`).
+    let a1: &str = if shape != 2 && t.chance(65) { "r" } else { "t1" };
+    if a1 == "r" {
+        feats.push("no_alias".into());
+    }
+    let mut from = From::Table { name: "r".into(), alias: if a1 == "r" { None } else { Some("t1".into()) } };
+    let mut where_: Option<Expr> = None;
+    let mut aggs: Vec<Expr> = vec![];
+    match shape {
+        0 => {
+            feats.push("grouped".into());
+            let k = 1 + t.pick(nkeys);
+            for i in 0..k {
+                let c = &r.cols[i];
+                group.push(Expr::qcol(a1, &c.name));
+                feats.push(format!("key_type:{:?}", c.ty));
+            }
+            feats.push(format!("keys:{}", k));
+        }
+        1 => {
+            feats.push("global".into());
+        }
+        _ => {
+            feats.push("left_join".into());
+            let s = &tables[1];
+            let on = Expr::eq(Expr::qcol("t1", "g1"), Expr::qcol("t2", "g1"));
+            let on = if t.chance(30) {
+                feats.push("join_residual".into());
+                Expr::and(on, Expr::bin(Expr::qcol("t2", &s.cols[s.cols.len() - 1].name), CMP[t.pick(6)], lit(&mut t, { let ty = s.cols[s.cols.len() - 1].ty; if ty == ColType::Int32 { ColType::Int } else { ty } })))
+            } else {
+                on
+            };
+            from = From::Join { l: Box::new(from), r: Box::new(From::Table { name: "s".into(), alias: Some("t2".into()) }), kind: JoinKind::Left, on: Some(on) };
+            if t.chance(85) {
+                group.push(Expr::qcol("t1", "g1"));
+                feats.push(format!("key_type:{:?}", r.cols[0].ty));
+                feats.push("grouped".into());
+            } else {
+                feats.push("global".into());
+            }
+        }
+    }
+    if t.chance(if shape == 1 { 55 } else { 30 }) {
+        feats.push("where".into());
+        where_ = Some(where_pred(&mut t, r, a1, &mut feats));
+    }
+    for (i, g) in group.iter().enumerate() {
+        items.push(Item::Expr(g.clone(), Some(format!("k{}", i + 1))));
+    }
+    let na = 1 + t.pick(4);
+    for i in 0..na {
+        let (tb, al) = if shape == 2 && t.chance(75) { (&tables[1], "t2") } else { (r, a1) };
+        let a = agg(&mut t, tb, al, &mut feats);
+        aggs.push(a.clone());
+        items.push(Item::Expr(a, Some(format!("a{}", i + 1))));
+    }
+    let having = if !group.is_empty() && t.chance(15) {
+        feats.push("having".into());
+        let a = aggs[t.pick(aggs.len())].clone();
+        // keep HAVING over counts (an integer) or IS [NOT] NULL over the others
+        Some(match &a {
+            Expr::Agg { f: AggF::Count, .. } => Expr::bin(a, CMP[t.pick(6)], Expr::int(t.pick(4) as i64)),
+            _ => Expr::IsNull { e: Box::new(a), neg: t.chance(50) },
+        })
+    } else {
+        None
+    };
+    let sel = Select { distinct: false, items, from: vec![from], where_, group: if group.is_empty() { Group::None } else { Group::By(group) }, having };
+    let spill = [1usize, 1, 64, 512][t.pick(4)];
+    let cfgs = vec![
+        EngineCfg::mem("mem1").single(),
+        EngineCfg::mem("mem"),
+        EngineCfg::mem("spill").limit(spill),
+        EngineCfg::mem("parquet").parquet(layouts.clone()),
+        EngineCfg::mem("parquet_disjoint").parquet(layouts.clone()).disjoint(),
+        EngineCfg::mem("parquet_nomorsel").parquet(layouts).no_morsel(),
+    ];
+    AggCase { sql_case: SqlCase { tables, query: Query::select(sel), cuts, features: feats }, cfgs }
+}
+
+pub const KF_NULL_KEY: &str = "agg-null-group-key";
+pub const KF_EMPTY: &str = "agg-empty-input";
+pub const KF_DICT_MINMAX: &str = "agg-minmax-string-after-join";
+pub const KF_GKR: &str = "group-key-reduction-false-unique";
+
+pub const KF_MORSEL_TYPE: &str = "agg-morsel-qualified-sum-type";
+pub const KF_DENSE_SUM: &str = "agg-dense-sum-no-input";
+
+/// Align engine rows with reference rows by their group key (the first `nkeys`
+/// columns; one row per key) and list the cells that differ as (column, reference
+/// value, engine value). None when the two answers do not have the same keys.
+fn column_diffs(reference: &crate::refsql::RefAnswer, got: &Rows, nkeys: usize) -> Option<Vec<(usize, Value, Value)>> {
+    if reference.rows.len() != got.len() {
+        return None;
+    }
+    let mut used = vec![false; got.len()];
+    let mut out = vec![];
+    for r in &reference.rows {
+        let j = (0..got.len()).find(|&j| !used[j] && got[j].len() == r.len() && (0..nkeys).all(|k| crate::refsql::not_distinct(&r[k], &got[j][k])))?;
+        used[j] = true;
+        for i in nkeys..r.len() {
+            if !value_eq(&r[i], &got[j][i], 1e-9) {
+                out.push((i, r[i].clone(), got[j][i].clone()));
+            }
+        }
+    }
+    Some(out)
+}
+
+fn is_sentinel(v: &Value) -> bool {
+    match v {
+        Value::Int(i) => *i == i64::MIN || *i == i64::MAX,
+        Value::Date(d) => *d == i32::MIN || *d == i32::MAX,
+        Value::Double(x) => *x == f64::MAX || *x == f64::MIN,
+        // dates outside chrono's range are rendered as text by data::cell
+        Value::Str(s) => s.starts_with("date("),
+        _ => false,
+    }
+}
+
+/// Narrowed signatures of the open aggregate findings: each one checks the
+/// statement shape, a data condition, AND that the engine's answer differs from
+/// the reference in exactly the way the defect produces.
+fn classify(c: &SqlCase, _ev: &Ev, reference: &crate::refsql::RefAnswer, cfg: &EngineCfg, out: &RunOut, _msg: &str) -> Option<&'static str> {
+    let got = out.rows.as_ref().ok()?;
+    let SetExpr::Select(sel) = &c.query.body else { return None };
+    let nkeys = match &sel.group {
+        Group::By(v) => v.len(),
+        _ => 0,
+    };
+    let has_join = matches!(sel.from.first(), Some(From::Join { .. }));
+    // (1) perfect-hash aggregation: a group whose key is NULL in EVERY grouping column is
+    //     indistinguishable from a free slot and is dropped (its other groups are right)
+    if nkeys > 0 {
+        // … or re-created after a rehash dropped it, holding only the rows seen since. Either way
+        //     the answers agree on every group except the all-NULL-key one.
+        let all_null_key = |r: &Vec<Value>| r.len() >= nkeys && r[..nkeys].iter().all(|v| v.is_null());
+        if reference.rows.iter().any(all_null_key) && got.iter().filter(|r| all_null_key(r)).count() <= 1 {
+            let rest = |rows: &Rows| -> Rows { rows.iter().filter(|r| !all_null_key(r)).cloned().collect() };
+            if multiset_eq(&rest(&reference.rows), &rest(got), 1e-9) {
+                return Some(KF_NULL_KEY);
+            }
+        }
+    }
+    // (2) single global MIN/MAX over no non-NULL value: aggregate_scalar_simd returns the fold's
+    //     start value (i64::MAX/MIN, f64::MAX/MIN, date ±2^31) instead of NULL
+    if nkeys == 0 && reference.rows.len() == 1 && got.len() == 1 && reference.rows[0].len() == got[0].len() {
+        let (r, g) = (&reference.rows[0], &got[0]);
+        let mut sentinel = false;
+        let mut other = false;
+        for (i, (a, b)) in r.iter().zip(g).enumerate() {
+            if value_eq(a, b, 1e-9) {
+                continue;
+            }
+            let minmax = matches!(sel.items.get(i), Some(Item::Expr(Expr::Agg { f: AggF::Min | AggF::Max, .. }, _)));
+            if a.is_null() && minmax && is_sentinel(b) {
+                sentinel = true;
+            } else {
+                other = true;
+            }
+        }
+        if sentinel && !other {
+            return Some(KF_EMPTY);
+        }
+    }
+    // (3) MIN/MAX(VARCHAR) above a join: the hash aggregate's accumulators have no arm for the
+    //     dictionary-encoded strings the join emits → NULL
+    if has_join && reference.rows.len() == got.len() {
+        let str_minmax: Vec<usize> = sel
+            .items
+            .iter()
+            .enumerate()
+            .filter(|(_, it)| match it {
+                Item::Expr(Expr::Agg { f: AggF::Min | AggF::Max, arg: Some(a), .. }, _) => match &**a {
+                    Expr::Col { rel: Some(rel), name } => {
+                        let ti = if rel == "t2" { 1 } else { 0 };
+                        c.tables.get(ti).map(|t| t.cols.iter().any(|x| &x.name == name && x.ty == ColType::Str)).unwrap_or(false)
+                    }
+                    _ => false,
+                },
+                _ => false,
+            })
+            .map(|(i, _)| i)
+            .collect();
+        if !str_minmax.is_empty() {
+            // blank those columns on both sides: everything else must agree, and the engine's are NULL
+            let blank = |rows: &Rows| -> Rows {
+                rows.iter()
+                    .map(|r| r.iter().enumerate().map(|(i, v)| if str_minmax.contains(&i) { Value::Null } else { v.clone() }).collect())
+                    .collect()
+            };
+            // the engine's values in those columns are NULL (dictionary input ignored) or right
+            let some_null = got.iter().any(|r| str_minmax.iter().any(|&i| r[i].is_null()));
+            if some_null && multiset_eq(&blank(&reference.rows), &blank(got), 1e-9) {
+                // per-row check when rows can be aligned by their keys (keys are unique per group)
+                let aligned_ok = if nkeys > 0 {
+                    got.iter().all(|g| {
+                        reference.rows.iter().any(|r| {
+                            rows_eq(&[r[..nkeys].to_vec()], &[g[..nkeys].to_vec()], 0.0) && str_minmax.iter().all(|&i| g[i].is_null() || value_eq(&g[i], &r[i], 0.0))
+                        })
+                    })
+                } else {
+                    str_minmax.iter().all(|&i| got[0][i].is_null() || value_eq(&got[0][i], &reference.rows[0][i], 0.0))
+                };
+                if aligned_ok {
+                    return Some(KF_DICT_MINMAX);
+                }
+            }
+        }
+    }
+    // (5)/(6) MorselAggregateExec only (Parquet, morsel execution on, aggregate directly over the scan):
+    //   (5) SUM over a TABLE-QUALIFIED integer column (`SUM(r.x)`, no alias): the input type does not
+    //       resolve against the scan's bare field names, defaults to Float64, and the column comes out NULL;
+    //   (6) dense direct-address path (one BIGINT/INTEGER/DATE key, COUNT/SUM/AVG only): a group with no
+    //       non-NULL input gets SUM = 0 / 0.0 and AVG = NaN instead of NULL.
+    if cfg.parquet.is_some() && cfg.morsel && !has_join {
+        let is_qualified_int_sum = |e: &Expr| match e {
+            Expr::Agg { f: AggF::Sum, arg: Some(a), .. } => match &**a {
+                Expr::Col { rel: Some(rel), name } => rel == "r" && c.tables[0].cols.iter().any(|x| &x.name == name && x.ty.is_int()),
+                _ => false,
+            },
+            _ => false,
+        };
+        // HAVING over such a SUM sees NULL for every group
+        if let Some(h) = &sel.having {
+            let mut hit = false;
+            h.walk(&mut |e| {
+                if is_qualified_int_sum(e) {
+                    hit = true
+                }
+            });
+            if hit {
+                return Some(KF_MORSEL_TYPE);
+            }
+        }
+        // the same state also has the all-NULL-key defect of (1): compare the other groups only
+        let all_null = |r: &Vec<Value>| nkeys > 0 && r.len() >= nkeys && r[..nkeys].iter().all(|v| v.is_null());
+        let mut ref2 = reference.clone();
+        ref2.rows.retain(|r| !all_null(r));
+        let got2: Rows = got.iter().filter(|r| !all_null(r)).cloned().collect();
+        if let Some(diffs) = column_diffs(&ref2, &got2, nkeys) {
+            let item_agg = |i: usize| match sel.items.get(i) {
+                Some(Item::Expr(Expr::Agg { f, arg, .. }, _)) => Some((*f, arg.as_deref().cloned())),
+                _ => None,
+            };
+            let qualified_int_sum = |i: usize| match item_agg(i) {
+                Some((AggF::Sum, Some(Expr::Col { rel: Some(rel), name }))) => {
+                    rel == "r" && c.tables[0].cols.iter().any(|x| x.name == name && x.ty.is_int())
+                }
+                _ => false,
+            };
+            if !diffs.is_empty() && diffs.iter().all(|(i, _r, g)| qualified_int_sum(*i) && g.is_null()) {
+                return Some(KF_MORSEL_TYPE);
+            }
+            let zero_or_nan = |v: &Value| match v {
+                Value::Int(0) => true,
+                Value::Double(x) => *x == 0.0 || x.is_nan(),
+                _ => false,
+            };
+            if nkeys == 1 && !diffs.is_empty() && diffs.iter().all(|(i, r, g)| matches!(item_agg(*i), Some((AggF::Sum | AggF::Avg, _))) && r.is_null() && zero_or_nan(g)) {
+                return Some(KF_DENSE_SUM);
+            }
+        }
+    }
+    // (4) GroupKeyReduction (needs Parquet footer statistics): a null-free integer/date group key
+    //     whose value RANGE is at least the row count is taken for a unique key (ndv_est =
+    //     min(rows, max-min+1) >= rows) although it repeats, and the other keys are dropped
+    if cfg.parquet.is_some() && nkeys >= 2 && !has_join {
+        if let Group::By(keys) = &sel.group {
+            let t = &c.tables[0];
+            for k in keys {
+                let Expr::Col { name, .. } = k else { continue };
+                let Some(ci) = t.col_index(name) else { continue };
+                if !matches!(t.cols[ci].ty, ColType::Int | ColType::Int32 | ColType::Date) {
+                    continue;
+                }
+                let vals: Vec<i64> = t
+                    .rows
+                    .iter()
+                    .filter_map(|r| match &r[ci] {
+                        Value::Int(i) => Some(*i),
+                        Value::Date(d) => Some(*d as i64),
+                        _ => None,
+                    })
+                    .collect();
+                if vals.len() != t.rows.len() || vals.len() < 2 {
+                    continue; // has NULLs (or too small)
+                }
+                let (mn, mx) = (vals.iter().min().unwrap(), vals.iter().max().unwrap());
+                let mut d = vals.clone();
+                d.sort();
+                d.dedup();
+                if (mx - mn + 1) as usize >= vals.len() && d.len() < vals.len() {
+                    return Some(KF_GKR);
+                }
+            }
+        }
+    }
+    None
+}
+
+pub struct AggCheck;
+impl Check for AggCheck {
+    type Case = AggCase;
+    fn name(&self) -> &'static str {
+        "agg_paths"
+    }
+    fn rule(&self) -> &'static str {
+        "at least three of the six configurations answered, and the reference evaluation saw a group with no non-NULL aggregate input, a NULL grouping key, or a global aggregate over an empty input"
+    }
+    fn cases(&self, tier: Tier) -> u32 {
+        tier.pick(1500, 30_000)
+    }
+    fn max_shrink_iters(&self) -> u32 {
+        1200
+    }
+    fn strategy(&self, _tier: Tier) -> BoxedStrategy<AggCase> {
+        let one = (1usize..=2).prop_flat_map(|nk| table_strategy("r", nk, true)).prop_map(|t| vec![t]);
+        let two = (table_strategy("r", 1, false), table_strategy("s", 1, false)).prop_map(|(a, b)| {
+            // the join key columns must have one type
+            let mut b = b;
+            if a.cols[0].ty != b.cols[0].ty {
+                b.cols[0].ty = a.cols[0].ty;
+                let n = b.rows.len();
+                for (i, row) in b.rows.iter_mut().enumerate() {
+                    // reuse r's key values cyclically (NULLs included) so matches exist
+                    row[0] = if a.rows.is_empty() { Value::Null } else { a.rows[(i * 7 + n) % a.rows.len()][0].clone() };
+                }
+            }
+            vec![a, b]
+        });
+        (prop_oneof![3 => one, 1 => two], proptest::collection::vec(any::<u16>(), 0..60), proptest::collection::vec(proptest::collection::vec(0usize..=40, 0..4), 2), proptest::collection::vec(parquet_layout_strategy(40), 2))
+            .prop_map(|(tables, tape, cuts, layouts)| {
+                let n = tables.len();
+                build(tables, tape, cuts.into_iter().take(n).collect(), layouts.into_iter().take(n).collect())
+            })
+            .boxed()
+    }
+    fn test(&self, case: &AggCase, obs: &mut Obs) -> Verdict {
+        let c = &case.sql_case;
+        let out = judge_multi(c, &case.cfgs, obs, 1e-9, classify, false);
+        if out.reference.is_none() {
+            return out.verdict;
+        }
+        for e in &out.events {
+            obs.label(format!("ev:{}", e));
+        }
+        for r in &out.per_cfg {
+            if r.mismatch.is_some() {
+                obs.label(format!("mismatch[{}]", r.label));
+            }
+        }
+        let interesting = out.events.contains("agg_no_nonnull_input") || out.events.contains("null_group_key") || out.events.contains("global_agg_empty_input");
+        obs.nontrivial(out.answered() >= 3 && interesting);
+        out.verdict
+    }
+}
 
 pub fn property() -> Property {
-    Property { id: "C21", level: "exploration", assumptions: &[], checks: vec![] }
+    Property {
+        id: "C21",
+        level: "exploration",
+        assumptions: &[
+            "the reference evaluator refsql implements the SQL aggregate rules (NULL inputs ignored; SUM/AVG/MIN/MAX of no non-NULL input = NULL; COUNT = 0; NULL grouping keys form one group; a global aggregate over no rows yields one row), cross-checked against SQLite",
+            "doubles are multiples of 0.25 (sums exact in any order); AVG is compared with relative tolerance 1e-9",
+            "an engine error is an allowed outcome (labelled); a wrong answer is not",
+            "the configuration that sets the process-global verif_hooks::force_disjoint switch runs exclusively (RwLock)",
+        ],
+        checks: vec![Box::new(AggCheck)],
+    }
 }
